@@ -184,4 +184,16 @@ def required_universe(ids=BOUNDARY_IDS):
                              field(3, "optional", ST("TLeafR", True)), field(4, "default", ST("TLeafR", False)),
                              field(5, "optional", M(ST("TLeafR", True), T("i32"))), field(6, "required", T("i32"))])
     pairs.append(("WNest", "TNestR", "nested"))
+    # the outer struct lacks required id 1 / 64 while its children carry fields with those very ids
+    defs["WOut"] = struct([field(1, "optional", T("i32", True)), field(64, "optional", T("string", True)),
+                           field(2, "default", L(ST("WLeaf", True))), field(3, "optional", ST("WLeaf", True)),
+                           field(4, "default", M(T("string"), ST("WLeaf", True)))])
+    defs["TOutR"] = struct([field(1, "required", T("i32")), field(64, "required", T("string")),
+                            field(2, "default", L(ST("TLeafR", True))), field(3, "optional", ST("TLeafR", True)),
+                            field(4, "default", M(T("string"), ST("TLeafR", True)))])
+    pairs.append(("WOut", "TOutR", "outer-vs-child-ids"))
+    # required fields declared nocopy
+    defs["WNc"] = struct([field(1, "optional", T("string", True)), field(2, "optional", T("binary")), field(3, "optional", T("i32", True))])
+    defs["TNcR"] = struct([field(1, "required", T("string"), nocopy=True), field(2, "required", T("binary"), nocopy=True), field(3, "default", T("i32"))])
+    pairs.append(("WNc", "TNcR", "required-nocopy"))
     return U.with_defaults(defs), pairs
